@@ -128,11 +128,14 @@ theorem popWrap_rel {f live} (g : GoodMap f live) {a b : M N} (h : RelM f live a
         rw [g.fix0] at this
         exact .ok ⟨this.1, this.2, rfl⟩
       | cons line rest =>
-        have hr' := h.1.setLive g g.live0 (lineStack line : List N)
-        rw [g.fix0] at hr'
-        have := popRaw_rel g hr' 0 g.live0
-        rw [g.fix0] at this
-        exact .ok ⟨this.1, this.2, rfl⟩
+        cases line with
+        | nil => exact .err
+        | cons ch cs =>
+          have hr' := h.1.setLive g g.live0 (lineStack (ch :: cs) : List N)
+          rw [g.fix0] at hr'
+          have := popRaw_rel g hr' 0 g.live0
+          rw [g.fix0] at this
+          exact .ok ⟨this.1, this.2, rfl⟩
     · have := popRaw_rel g h.1 0 g.live0
       rw [g.fix0] at this
       exact .ok ⟨this.1, this.2, rfl⟩
